@@ -1,5 +1,6 @@
-(* C20 driver: scenario = <dur> <nfilters> { <name> } <ntests> { <group> <name> <file> <line> <ignored> <nstmts> { :p <text> | :f <file> <line> <msg> | :x <file> <line> <msg> } }
-   observation = <stream>.
+(* C20 driver: scenario = [ :opt <run-ignored 0|1> <passes> ] <dur> <nfilters> { <name> } <ntests> { <group> <name> <file> <line> <ignored> <nstmts> { :p <text> | :f <file> <line> <msg> | :x <file> <line> <msg> } }
+   (without the :opt prefix: run-ignored off, one pass)
+   observation = <stream> <n> { <executions of the body of test i in pass p> }  (pass-major, n = passes * ntests).
    Extra form (parser differential, no implementation involved): :raw <bytes>; the model answers
    :parsed 0   or   :parsed 1 <nmsgs> { <name> <nattrs> { <key> <value> } }   (checks/C20.py compares this with its own decoder) *)
 let stmt c =
@@ -13,8 +14,16 @@ let test c =
   let ign = bool_tok (next c) in let body = counted c stmt in
   { t_group = g; t_name = n; t_file = f; t_line = l; t_ignored = ign; t_body = body }
 let scenario c =
+  let (ri, passes) =
+    if peek c = Some ":opt" then (ignore (next c); let r = bool_tok (next c) in let p = int_tok (next c) in (r, p)) else (false, 1) in
+  if passes < 0 || passes > 8 then raise (Bad "more than 8 passes");
   let d = n_tok (next c) in let fs = counted c (fun c -> bytes_tok (next c)) in let ts = counted c test in
-  { s_dur = d; s_filters = fs; s_tests = ts }
+  { s_dur = d; s_ri = ri; s_passes = nat_of_int passes; s_filters = fs; s_tests = ts }
+let pobs o = String.concat " " (pbytes o.o_stream :: Printf.sprintf "%x" (List.length o.o_exec) :: List.map pn o.o_exec)
+let obs_toks os =
+  match os with
+  | st :: n :: cs when List.length cs = int_tok n -> Some { o_stream = bytes_tok st; o_exec = List.map n_tok cs }
+  | _ -> None
 let pparsed r =
   match r with
   | None -> ":parsed 0"
@@ -25,9 +34,9 @@ let run_line ts =
   match ts with
   | ":raw" :: b :: _ -> pparsed (parse_result (bytes_tok b))
   | _ -> let c = { rest = ts } in let s = scenario c in
-         if not (valid s) then raise (Bad "scenario outside the property's domain (printing test body, number beyond size_t, NUL in a string)") else pbytes (run s)
+         if not (valid s) then raise (Bad "scenario outside the property's domain (printing test body, number beyond size_t, NUL in a string)") else pobs (run s)
 let spec_line ts os =
   match ts with
   | ":raw" :: _ -> true
   | _ -> let c = { rest = ts } in let s = scenario c in
-         (match os with [o] -> spec s (bytes_tok o) | _ -> false)
+         (match obs_toks os with Some o -> spec s o | None -> false)
